@@ -193,6 +193,17 @@ def scatter_order(rep, k, ix):
     from ..interp import Interp
     from ..plf import Rat, Fn, Sym
     data, mask = Rat.sym(k.params[0], ("array",)), Rat.sym(k.params[1], ("array",))
+    # the numbering of the active cells is the logical row-major order of mask == 1 (that is how the slopes are read back):
+    # a traversal in *memory* order (order="K"/"A"/"F") numbers the cells of a transposed or column-major mask differently
+    mem = [n for n in ast.walk(k.node) if isinstance(n, ast.keyword) and n.arg == "order" and
+           not (isinstance(n.value, ast.Constant) and n.value.value in ("C", None))]
+    for n in mem:
+        rep.violation("M4.scatter-order", "%s: order=%s" % (k.fq, norm_text(n.value)),
+                      "cells are enumerated with order=%s, i.e. in memory (or column-major) order: for a mask that is a transposed view or "
+                      "Fortran-ordered the k-th enumerated cell is not the k-th cell of numpy.where(mask == 1), so slopes land in the wrong "
+                      "sub-apertures" % norm_text(n.value), k.where(n.value))
+    if mem:
+        return
     I = Interp(ix)
     I.returns(k, [data, mask])
     full = ("slice", Rat.const(0), None, None)
